@@ -516,7 +516,10 @@ def gen_constraint(rng, h, nvars):
         # skeleton of fresh variables
         comp = [o for o in h.ids if h.arity(o) >= 1]
         o = rng.choice(comp)
-        tgt = ("o", o, [rng.choice([("o", rng.choice(base), []), ("w",)]) for _ in range(h.arity(o))])
+        # (a parameter may be a variable of the signature, x itself included: x <= F(x) has no
+        # finite solution and must be refused as a recursive type)
+        tgt = ("o", o, [rng.choice([("o", rng.choice(base), []), ("w",), ("v", rng.randrange(nvars))])
+                        for _ in range(h.arity(o))])
         return ("sub", x, tgt, False) if rng.random() < 0.6 else ("sub", tgt, x, False)
     nalt = rng.randint(1, 4)
     alts = []
